@@ -19,6 +19,10 @@ def run(tier):
     def enc(prog, m):
         return "".join(alone[m][l] for l in prog)
 
+    skip = [l for l in skip if all(l in alone[m] for m in masks)]
+    if len(R) < 20:
+        raise common.HarnessError("only %d of %d representative lines are accepted alone under all option sets" % (len(R), len(lines)))
+
     # (1) all ordered pairs (state leak l1 -> l2), default options; thorough: all three masks
     items, meta = [], []
     for m in (masks if full else masks[:1]):
